@@ -312,6 +312,18 @@ class DriverRules:
                 f = D.ops[op]
                 where = '%s:%s' % (f['file'], f['line'])
                 I, out = self.run(op, T)
+                # R11.b: constant tables subscripted by (values computed from) file bytes
+                seen_oob = set()
+                for name, idx, r, size, loc_ in list(I.oob_may) + [(None, C(i), (i, i), n_, None) for i, n_ in I.oob]:
+                    k = (name, loc_)
+                    if k in seen_oob:
+                        continue
+                    seen_oob.add(k)
+                    rec.ob('R11.b', 'R11.b@%s::table-subscript-in-range::%s' % (fkey(f), name), False, loc_ or where,
+                           'T=%d %s: constant table %s (%d entries) is subscripted with %s in [%d, %d] on a path steered by file bytes' % (
+                               T, op, name, size, show(idx), r[0], r[1]))
+                rec.ob('R11.b', 'R11.b@%s::table-subscripts-in-range' % fkey(f), not seen_oob, where,
+                       'T=%d %s: every subscript of a constant table on the analysed paths stays inside the table: %s' % (T, op, 'yes' if not seen_oob else 'NO'))
                 for s, v in out:
                     ev = accesses(s, kinds=('W', 'R', 'SEEK', 'PIPE', 'HASHFILE', 'HBUF', 'CLOSE', 'HASHSTR', 'NULLDEREF', 'VERIFYRET', 'STREAM'))
                     vr = s.comps.get('verify_ret')
@@ -383,6 +395,15 @@ class DriverRules:
                 ok = all(v == C(0) and not [e for e in accesses(s) if e[0] in ('R', 'W', 'PIPE')] for s, v in out)
                 rec.ob('R12.c', 'R12.c@%s::missing-input-handled-alike' % fkey(D.ops[op]), ok, '%s:%s' % (D.ops[op]['file'], D.ops[op]['line']),
                        '%s with no input file returns failure without touching any stream' % op)
+
+        # does what the shared verification step accepts depend on the stream count?  (consumed by R12.f)
+        sig = {}
+        for T in self.Ts:
+            I, out = self.run('verify', T)
+            sig[T] = frozenset((show(v), s.sym.get('$fsize')) for s, v in out)
+        dep = [T for T in self.Ts if sig[T] != sig[self.Ts[0]]]
+        rec.extra['verify_outcome_depends_on_stream_count'] = bool(dep)
+        rec.extra['verify_outcome_signature'] = {str(T): sorted(map(str, sig[T])) for T in (self.Ts[0], dep[0] if dep else self.Ts[-1])}
 
     def hash_range(self, s, ev, T, f, where, lens):
         rec = self.rec
